@@ -346,7 +346,7 @@ func c11(c *wk.Ctx) {
 	r := c.R
 	log.SetLevel(log.LEVEL_NONE)
 	r.Rule = "digest: digest.New, in-repo crc64 and module crc64 vs a bitwise CRC-64/Jones on random strings x random chunkings (1-byte, empty writes, Reset); " +
-		"fault enumeration, exhaustive per artefact: every position x every one of the 255 substitute bytes and every truncation of generated RDB files (<=300 bytes, versions 1-9) through Header..Footer, and of DUMP payloads emitted by the tool's loader (<=200 bytes) through rdb.DecodeDump and CheckVersionChecksum; versions above the supported one with a recomputed valid CRC. distinct = artefact shape classes"
+		"fault enumeration, exhaustive per artefact: every position x every one of the 255 substitute bytes and every truncation of generated RDB files (<=300 bytes, versions 1-9) through Header..Footer, and of DUMP payloads emitted by the tool's loader (<=200 bytes) through rdb.DecodeDump and CheckVersionChecksum; versions above the supported one with a recomputed valid CRC; concurrent stage: groups of 2-16 loaders parse their own intact generated files at the same time (as the tool does with several sources/input files) and every emitted payload's trailer must be the CRC-64 of its own bytes and every end-of-file check must pass. distinct = artefact shape classes"
 	r.Exhaustive = true
 	if msg := refcrc.SelfTest(); msg != "" {
 		r.Inconcl("refcrc self-test failed: " + msg)
@@ -437,10 +437,26 @@ func c11(c *wk.Ctx) {
 	for p := 0; p < 8; p++ {
 		jobs = append(jobs, job{"c11dump", nD * p / 8, nD * (p + 1) / 8})
 	}
+	nC := c.N(24, 600)
+	for p := 0; p < 4; p++ {
+		jobs = append(jobs, job{"c11conc", nC * p / 4, nC * (p + 1) / 4})
+	}
 	wk.Parallel(len(jobs), 15, func(i int) {
 		j := jobs[i]
+		if j.name == "c11conc" {
+			wk.RunBatch(c, j.name, j.start, j.end, nil, 30*time.Minute, func(d wk.Death) {
+				if d.Result.TimedOut {
+					r.Inconcl("C11 concurrent-loaders child watchdog")
+					return
+				}
+				r.Violationf("C11|concurrent-loaders|outcome=process-aborted", json.RawMessage(d.Desc), "concurrent loaders on intact files ended the process (exit %d): %s", d.Result.Exit, firstPanicLine(d.Result.Stderr))
+			})
+			return
+		}
 		wk.RunBatch(c, j.name, j.start, j.end, nil, 30*time.Minute, onDeath(j.name))
 	})
+	r.Floor("concurrent_loader_groups", 20)
+	r.Floor("concurrent_payloads_checked", 3000)
 	r.Floor("rdb_mutants", 200000)
 	r.Floor("payload_mutants", 200000)
 	r.Floor("rdb_intact_accepted", 8)
